@@ -106,8 +106,9 @@ func (f *Frame) execCall(instr *ssa.Call, cc *ssa.CallCommon, reach string, st *
 	}
 	callee := cc.StaticCallee()
 	if callee == nil {
-		// call through a function value
+		// call through a function value (anchor for asserts: `call funcvalue`)
 		fv := f.val(cc.Value)
+		f.callSiteAsserts(instr, cc, "funcvalue", args, reach, st)
 		if nt, ok := cc.Value.Type().(*types.Named); ok && nt.Obj().Pkg() != nil && nt.Obj().Pkg().Path() == "context" && nt.Obj().Name() == "CancelFunc" {
 			// cancelling a context does not touch modelled state
 			f.eng.note("calls of context.CancelFunc values have no effect on modelled state")
